@@ -1,0 +1,22 @@
+//go:build verif
+
+package psql
+
+import (
+	"github.com/bmeg/grip/gdbi"
+	"github.com/bmeg/grip/timestamp"
+	"github.com/jmoiron/sqlx"
+)
+
+// VerifNewGraph builds a Graph around an injected database handle (verification
+// harness only: lets a recording database/sql driver observe the statements).
+func VerifNewGraph(db *sqlx.DB, graph, vtable, etable string) gdbi.GraphInterface {
+	ts := timestamp.NewTimestamp()
+	return &Graph{db: db, ts: &ts, v: vtable, e: etable, graph: graph}
+}
+
+// VerifNewGraphDB builds a GraphDB around an injected database handle.
+func VerifNewGraphDB(db *sqlx.DB) gdbi.GraphDB {
+	ts := timestamp.NewTimestamp()
+	return &GraphDB{db: db, ts: &ts}
+}
